@@ -1,9 +1,9 @@
-from . import streams_cavity, cli
+from . import streams_cavity, streams_collapse, cli
 
 ID = 'C01'
-PROPS_MODULE = ['Refine.Props.C01']
+PROPS_MODULE = ['Refine.Props.C01', 'Refine.Props.C13Collapse']
 STREAMS = [streams_cavity.OPS, streams_cavity.BAD, streams_cavity.VALID,
-           cli.ADAPT, streams_cavity.ADAPT_PASSES, cli.ADAPT_MPI]
+           cli.ADAPT, streams_cavity.ADAPT_PASSES, cli.ADAPT_MPI, streams_collapse.STARS, streams_collapse.RUN]
 
 EXPLANATION = (
     'Proved in Lean for the executable model of the cavity machine of src/ref_cavity.c, for every abelian group G '
@@ -47,6 +47,11 @@ EXPLANATION = (
     'present; strongly anisotropic 2-D requests included), output judged by the independent C01 validity oracle.')
 
 ASSUMPTIONS = [
+    'collapse by substitution (ref_collapse_edge): chain-level conformity, no duplicate cell under the manifold guard, '
+    'volume > min_volume of every created tet under the quality guard, and "ref_collapse_to_remove_node1 applies '
+    'only guarded collapses" are PROVED in Props/C13Collapse (collapse_conforming, collapse_history_conforming, '
+    'collapse_manifold_no_duplicate, collapse_quality_positive, toRemoveNode1_applies_guarded) and tied by the '
+    'collapse_stars / collapse_run streams; the sentence on collapse in the next item is superseded to that extent',
     'operators whose conformity is PROVED: the cavity replace for tet cavities built with add_tet (this package, up '
     'to whole histories: cavity_history_conforming) and for 2-D tri cavities built with add_tri; edge split and 2-D '
     'edge swap by the meshops package (Props/C13). Only TIED (differential execution + oracles), not proved: '
